@@ -79,3 +79,15 @@ def pylit_symbolic_key(it, p, key, node, strict):
 
 
 HOOKS = {'pylit_symbolic_key': pylit_symbolic_key}
+
+
+def set_state(it, obj, name, value):
+    """Put an object into a symbolic state: directly when the constructor stored the attribute on the instance,
+    otherwise through the interpreter's attribute store (class-level descriptors, properties)."""
+    if name in obj.fields:
+        obj.fields[name] = value
+        return True
+    if obj.cls.lookup(name) is not None:
+        it.set_attr(obj, name, value, None)
+        return True
+    return False
